@@ -173,12 +173,47 @@ def b_soc(case, rng, P):
     return Soc(), [dec.bus] + elements, lambda: map_meta(dec.bus.memory_map), None
 
 
+class Pair(wiring.Component):
+    """The judged component next to a second one of its class that took over what the first refused: a refused
+    add() must leave nothing behind in the component that refused it (the interface is free to go elsewhere)."""
+    def __init__(self, first, second):
+        super().__init__({})
+        self.first, self.second = first, second
+
+    def elaborate(self, platform):
+        from amaranth import Module
+        m = Module()
+        m.submodules.first = self.first
+        m.submodules.second = self.second
+        return m
+
+
+def fallback(rng, P, first, refused, make_second, meta_first):
+    """-> (component, extra port interfaces, meta_fn) with the refused interfaces re-homed on a second component."""
+    if not refused or rng.random() < 0.3:
+        return first, [], meta_first
+    second = make_second()
+    taken = []
+    for r in refused:
+        try:
+            (second.add(r, name=f"fb{len(taken)}") if hasattr(r, "memory_map") else second.add(r))
+            taken.append(r)
+        except (ValueError, TypeError):
+            pass
+    if not taken:
+        return first, [], meta_first
+    P["refused_rehomed"] = len(taken)
+    sec_meta = (lambda: map_meta(second.bus.memory_map)) if hasattr(second.bus, "memory_map") and taken and \
+        hasattr(taken[0], "memory_map") else (lambda: None)
+    return Pair(first, second), [first.bus, second.bus] + taken, lambda: (meta_first(), sec_meta())
+
+
 def b_csrdec(case, rng, P):
     aw, dw = rng.randint(1, 10), rng.choice([1, 8, 16, 32])
     al = rng.choice([0, 0, 1, 2, 5])
     P.update(aw=aw, dw=dw, al=al, subs=[])
     dec = csr.Decoder(addr_width=aw, data_width=dw, alignment=al)
-    subs = []
+    subs, refused = [], []
     for i in range(rng.randint(0, 5)):
         k = rng.randint(1, aw)
         sdw = dw if rng.random() < 0.9 else rng.choice([8, 16])
@@ -191,7 +226,10 @@ def b_csrdec(case, rng, P):
             subs.append(sub)
         except (ValueError, TypeError) as e:
             P.setdefault("refused_adds", []).append(judge_exception(e))
-    return dec, subs, lambda: map_meta(dec.bus.memory_map), None
+            refused.append(sub)
+    comp, more, meta = fallback(rng, P, dec, refused, lambda: csr.Decoder(addr_width=aw + 4, data_width=dw),
+                                lambda: map_meta(dec.bus.memory_map))
+    return comp, subs + more, meta, None
 
 
 def b_wbdec(case, rng, P):
@@ -204,7 +242,7 @@ def b_wbdec(case, rng, P):
     dec = wishbone.Decoder(addr_width=aw, data_width=dw, granularity=gran, features=spell_features(rng, feats),
                            alignment=rng.choice([0, 0, 2]))
     map_aw = max(1, aw + gbits)
-    subs = []
+    subs, refused = [], []
     for i in range(rng.randint(0, 4)):
         sparse = rng.random() < 0.3 and gbits > 0
         if sparse:
@@ -225,7 +263,12 @@ def b_wbdec(case, rng, P):
             subs.append(sub)
         except (ValueError, TypeError) as e:
             P.setdefault("refused_adds", []).append(judge_exception(e))
-    return dec, subs, lambda: map_meta(dec.bus.memory_map), None
+            refused.append(sub)
+    comp, more, meta = fallback(rng, P, dec, refused,
+                                lambda: wishbone.Decoder(addr_width=aw + 4, data_width=dw, granularity=gran,
+                                                         features={"err", "rty", "stall"}),
+                                lambda: map_meta(dec.bus.memory_map))
+    return comp, subs + more, meta, None
 
 
 def b_arb(case, rng, P):
@@ -235,7 +278,7 @@ def b_arb(case, rng, P):
     feats = {f for f in ("err", "rty", "stall", "lock", "cti", "bte") if rng.random() < 0.4}
     P.update(aw=aw, dw=dw, gran=gran, features=sorted(feats), intrs=[])
     arb = wishbone.Arbiter(addr_width=aw, data_width=dw, granularity=gran, features=spell_features(rng, feats))
-    intrs = []
+    intrs, refused = [], []
     for i in range(rng.randint(0, 5)):
         ig = rng.choice([g for g in (8, 16, 32, 64) if g <= dw])
         ifeat = {f for f in ("err", "rty", "stall", "lock", "cti", "bte") if rng.random() < 0.5}
@@ -250,7 +293,11 @@ def b_arb(case, rng, P):
             intrs.append(ib)
         except (ValueError, TypeError) as e:
             P.setdefault("refused_adds", []).append(judge_exception(e))
-    return arb, intrs, lambda: None, None
+            refused.append(ib)
+    comp, more, meta = fallback(rng, P, arb, refused,
+                                lambda: wishbone.Arbiter(addr_width=aw, data_width=dw, granularity=min(8, gran), features=()),
+                                lambda: None)
+    return comp, intrs + more, meta, None
 
 
 def b_sram(case, rng, P):
@@ -445,6 +492,7 @@ def run_case(case):
         with StepCounter(200_000) as sc:
             dut, extra, meta_fn, finding = BUILDERS[kind](case, rng, P)
         mon.count("constructed")
+        mon.count("refused_interfaces_rehomed", P.get("refused_rehomed", 0))
         mon.count("construct_steps", sc.steps)
     except Exception as e:
         verdict, info = judge_exception(e)
